@@ -329,6 +329,7 @@ class SimPool:
             step += 1
             if self.on_step:
                 self.on_step(step, d)
+        self.last_outcome = outcome
         if self.errors and raise_errors:
             raise RuntimeError("task failed in worker: " + "; ".join(e[1] for e in self.errors))
         return outcome
